@@ -27,7 +27,12 @@ let run_faults (parts : string list) : string =
   let tr = fld f "tr" in
   let (tk, udp) = c14_tr tr in
   let pool = c14_toks (fld f "pool") and dial = c14_toks (fld f "dial") in
-  match run_case tk udp pool dial with
+  (* idle=<ms>: the transport's idle time-out is known; the pipelined read loop's idle deadline kills a silent
+     connection before an exchange deadline that lies beyond it *)
+  let r = (match fld_opt f "idle" with
+    | Some i -> run_case_idle tk udp (2 * int_of_string i <= ifld f "dl") pool dial
+    | None -> run_case tk udp pool dial) in
+  match r with
   | None -> "MODEL-STUCK"
   | Some o ->
     let cls = (match o.o_class with RReply -> "REPLY" | RErr -> "ERR") in
